@@ -61,8 +61,9 @@ def scenarios(ctx, per_cell):
                     out.append(dict(base, runner=runner, id=f"{n}:{chain}@{rate}/{runner}"))
     # long streams (many transmissions back to back): positions beyond 2^22 samples, where
     # f32 sample counters lose sub-sample resolution
-    for chain, rate, nfr, lens in (("9600", 50000, 440, (200, 300)), ("1200", 44100, 56, (230, 300))) + \
-            ((("9600", 100000, 260, (250, 300)), ("1200", 50000, 56, (230, 300))) if ctx.thorough() else ()):
+    # (2^22 at 9600 baud, 2^24 at both: 232 frames of ~265 bytes are 18M samples of 1200-baud audio)
+    for chain, rate, nfr, lens in (("9600", 50000, 440, (200, 300)), ("1200", 44100, 232, (230, 300))) + \
+            ((("9600", 100000, 260, (250, 300)), ("1200", 50000, 210, (230, 300)), ("9600", 50000, 1550, (250, 300))) if ctx.thorough() else ()):
         frames = [{"class": rnd.choice(["random", "random", "stuffing"]), "len": rnd.randint(*lens)} for _ in range(nfr)]
         base = {"chain": chain, "rate": rate, "frames": frames, "preamble": 30, "gap": 2, "phase": 1.0, "toff": 0.31, "seed": rnd.randrange(1 << 30)}
         for runner in ("graph", "mtgraph"):
